@@ -207,9 +207,9 @@ func scenarioOmni(t *traceWriter, rng *rand.Rand) {
 		RestDistributorBaseURL: "http://dist.invalid", DistributeInterval: 100 * time.Millisecond}
 
 	schedQuick := [][]uint64{{3, 200, 255, 256, 257, 600}, {5, 255, 256, 257, 700}, {1, 2, 300, 512, 513},
-		{1, 2, 3, 64, 65, 700}, {2, 9, 100, 128, 129}, {7, 8, 15, 16, 500}, {4, 255, 256, 257, 770}}
+		{1, 2, 3, 64, 65, 700}, {1, 2, 100, 128, 129}, {7, 8, 15, 16, 500}, {1, 2, 256, 257, 770}}
 	schedThorough := [][]uint64{{3, 255, 256, 257, 65535, 65536, 65537}, {5, 255, 256, 257, 65535, 65536}, {1, 300, 65536, 65600},
-		{1, 2, 3, 64, 65, 127, 800}, {2, 9, 100, 128, 129, 511, 800}, {7, 8, 15, 16, 500, 799}, {4, 255, 256, 257, 65535, 65536, 65793}}
+		{1, 2, 3, 64, 65, 127, 800}, {1, 2, 100, 128, 129, 511, 800}, {7, 8, 15, 16, 500, 799}, {1, 2, 255, 256, 257, 65536, 65793}}
 	sched := schedQuick
 	if thorough() {
 		sched = schedThorough
